@@ -140,6 +140,22 @@ def order_reach(k, *a):
     return LAST is not None and LAST[0] != 'mro' and LAST[9] is None and len(LAST[10]) >= 3 and len(LAST[3]) >= 2
 
 
+def once(e10, e20, e21, td0, td1, td2, x):
+    """Each selected layer is run exactly once (as one group) by the run loop itself: the real Runner.run_tests over three
+    layers that all own tests, with tearDown faults (raise / NotImplementedError) so that the loop has to hand layers over
+    to subprocesses - every layer is either run here or handed over, never both, never twice, never dropped."""
+    global LAST
+    from harness import c01
+    ok = c01.stack(e10, e20, e21, True, True, True, False, False, False, td0, td1, td2, x, False, False)
+    LAST = ('once',) + tuple(c01.LAST)
+    return ok
+
+
+def once_reach(*a):
+    once(*a)
+    return LAST[10] is None and len(LAST[12]) >= 1
+
+
 def _mk(k):
     ne = k * (k - 1) // 2
     params = [('p', 'int'), ('q', 'int'), ('m0', 'bool'), ('dup', 'bool'), ('inst', 'bool'), ('unit', 'int'), ('j', 'bool'), ('own', 'int')]
@@ -164,7 +180,7 @@ def _v(k, **kw):
 
 SPEC = {
     'property': 'C10',
-    'encoded': ['zope.testrunner.runner.Runner.ordered_layers', 'runner.order_by_bases', 'runner.layer_sort_key', 'runner.gather_layers',
+    'encoded': ['zope.testrunner.runner.Runner.run_tests (layer loop: once(), the C01 world)', 'zope.testrunner.runner.Runner.ordered_layers', 'runner.order_by_bases', 'runner.layer_sort_key', 'runner.gather_layers',
                 'runner.layer_from_name', 'find.name_from_layer'],
     'files': ['src/zope/testrunner/runner.py', 'src/zope/testrunner/find.py', 'src/zope/testrunner/layer.py'],
     'stubs': ['options from the real get_options on a concrete argv (evaluated untraced)'],
@@ -183,6 +199,14 @@ SPEC = {
          'timeout': {'quick': 300, 'thorough': 850},
          'fidelity': [_v(3, e0=True, e2=True, q=3, unit=2), _v(3, p=4, q=2, e1=True, inst=True, own=5),
                       _v(3, p=5, m0=True, e0=True, e1=True, unit=1), _v(3, p=2, q=4, dup=True, e2=True)]},
+        {'name': 'once', 'fn': 'once', 'params': [('e10', 'bool'), ('e20', 'bool'), ('e21', 'bool'), ('td0', 'int'), ('td1', 'int'), ('td2', 'int'), ('x', 'bool')],
+         'call': 'e10, e20, e21, td0, td1, td2, x',
+         'bounds': {'quick': '0 <= td0 <= 2 and 0 <= td1 <= 2 and 0 <= td2 <= 2 and (td0 != 0) + (td1 != 0) + (td2 != 0) <= 2',
+                    'thorough': '0 <= td0 <= 2 and 0 <= td1 <= 2 and 0 <= td2 <= 2'},
+         'slices': {'quick': ['td0 == %d' % t for t in range(3)], 'thorough': ['td0 == %d and td1 == %d' % (t, u) for t in range(3) for u in range(3)]},
+         'reach': 'once_reach',
+         'timeout': {'quick': 300, 'thorough': 800},
+         'fidelity': [dict(e10=False, e20=False, e21=False, td0=2, td1=0, td2=0, x=False), dict(e10=True, e20=False, e21=True, td0=0, td1=2, td2=1, x=True)]},
         {'name': 'order4', 'fn': 'order', 'params': p4, 'call': c4,
          'bounds': {'thorough': b4 + ' and not j and not m0 and not dup and unit == 0 and not inst and (own == 15 or own == 7 or own == 11 or own == 13 or own == 14)'},
          'slices': {'thorough': ['p == %d' % i for i in range(24)]},
